@@ -170,7 +170,7 @@ def run(ctx):
             f.write(json.dumps(w) + "\n")
     # 3. impl: every cell in a debug and in a release build (debug assertions mask hangs), seeded string fuzz on top
     fuzz_n = ctx.pick(3000, 30000)
-    budget = ctx.pick(10000, 20000)
+    budget = 20000
     ctx.scope.update({"fuzz_strings": fuzz_n, "watchdog_ms": budget, "memory_cap_kb": 3000000})
     _drive_and_monitor(ctx, binaries, cases, fuzz_n, budget, extra=ctx.pick([], ["--isolate-all"]))
     seen = set()
